@@ -210,6 +210,7 @@ def build_harness(name="l1", race=False):
 # further statement files of a property (same rules as Properties/<pid>.v: statements, Print Assumptions, Examples);
 # they are compiled, scanned and counted together with the main file
 EXTRA_PROPERTY_FILES = {
+    "C01": ["C01views"],
     "C02": ["RefMod"],
     "C05": ["Refine", "RefMod"],
     "C06": ["C06own", "RefMod"],
